@@ -312,6 +312,32 @@ pub fn exec_u(w: &mut World, op: &Op, rest: &str, env: &mut Env) {
             w.u[dst] = if r.bit_len() > 3999 { &r % &m_digest } else { r };
             env.res(Pool::U, dst);
         }
+        "sparse" => {
+            // a few set bits far apart (rounding edges: sticky bits, ties, leading 1000..0 patterns of the estimators)
+            let mut x = op.n as u64;
+            let mut next = || {
+                x ^= x << 13;
+                x ^= x >> 7;
+                x ^= x << 17;
+                x
+            };
+            let top = [17usize, 24, 25, 32, 33, 53, 54, 63, 64, 65, 96, 127, 128, 129, 160, 161, 200, 300][(next() % 18) as usize];
+            let mut v = UBig::ONE << top;
+            for _ in 0..(op.m.unsigned_abs() % 4) {
+                let pos = match next() % 4 {
+                    0 => top.saturating_sub(1 + (next() % 3) as usize),
+                    1 => top.saturating_sub(16 + (next() % 18) as usize),
+                    2 => top.saturating_sub(23 + (next() % 12) as usize),
+                    _ => (next() as usize) % top.max(1),
+                };
+                v |= UBig::ONE << pos;
+            }
+            if form % 2 == 1 {
+                v -= UBig::ONE;
+            }
+            w.u[dst] = v;
+            env.res(Pool::U, dst);
+        }
         "pow2" => {
             if !shl_ok(1, op.n) {
                 return env.skip();
@@ -728,6 +754,7 @@ pub fn exec_u(w: &mut World, op: &Op, rest: &str, env: &mut Env) {
             env.emit_u64("i128ok", i128::try_from(v).is_ok() as u64);
             let (lo, hi) = v.log2_bounds();
             env.emit_u64("log2ok", (lo <= hi) as u64);
+            env.emit_u64("log2in", log2_bounds_hold(&v.clone().unsigned_abs_ubig(), lo, hi) as u64);
             if !w.u[a].is_zero() && w.u[b] > UBig::ONE {
                 env.emit_u64("ilog", w.u[a].ilog(&w.u[b]) as u64);
             }
@@ -1271,6 +1298,7 @@ pub fn exec_i(w: &mut World, op: &Op, rest: &str, env: &mut Env) {
             env.emit_u64("asu", v.as_ubig().is_some() as u64);
             let (lo, hi) = v.log2_bounds();
             env.emit_u64("log2ok", (lo <= hi) as u64);
+            env.emit_u64("log2in", log2_bounds_hold(&v.clone().unsigned_abs_ubig(), lo, hi) as u64);
         }
         "hash" => {
             let h = sim_hash(&w.i[a]);
@@ -1814,6 +1842,36 @@ fn mutated_text(mag: &UBig, negative: bool, radix: u32, kind: u64, pos: usize) -
     }
     t.extend(b);
     t
+}
+
+
+trait AsMag {
+    fn unsigned_abs_ubig(self) -> UBig;
+}
+impl AsMag for UBig {
+    fn unsigned_abs_ubig(self) -> UBig {
+        self
+    }
+}
+impl AsMag for IBig {
+    fn unsigned_abs_ubig(self) -> UBig {
+        self.unsigned_abs()
+    }
+}
+
+/// the promise behind log2_bounds: lb <= log2(v) <= ub (C19: "the bounds hold in each build"). Judged with a
+/// reference computed from the top 53 bits (error below 1e-12, far below the f32 resolution of the bounds).
+fn log2_bounds_hold(v: &UBig, lb: f32, ub: f32) -> bool {
+    if v.is_zero() {
+        return true; // documented as (-inf, -inf)
+    }
+    let bits = v.bit_len();
+    let top: u64 = if bits <= 53 { u64::try_from(v).unwrap() } else { u64::try_from(&(v >> (bits - 53))).unwrap() };
+    let shift = bits.saturating_sub(53) as f64;
+    // floor of the top bits underestimates by < 2^-52 relative: widen by that much on the upper side
+    let lo = (top as f64).log2() + shift;
+    let hi = ((top as f64) + if bits > 53 { 1.0 } else { 0.0 }).log2() + shift;
+    (lb as f64) <= hi + 1e-9 && (ub as f64) >= lo - 1e-9
 }
 
 // ------------------------------------------------------------------ modular ring macro-step
